@@ -130,11 +130,13 @@ type renameOnCloseFile struct {
 	tempPath  string
 	finalPath string
 	published bool
-	// discarded is set once Abort has removed the ".tmp" file and the
-	// reservation: from then on the names no longer belong to this writer (a
-	// later CreateFile may have reserved them again), so a repeated Abort must
-	// not remove them a second time.
-	discarded bool
+	// tempGone and finalGone are set once Abort has removed the ".tmp" file
+	// and the reservation respectively: from then on that name no longer
+	// belongs to this writer (a later CreateFile may have reserved it again),
+	// so a repeated Abort — including one retrying after a partial failure —
+	// must not remove it a second time.
+	tempGone  bool
+	finalGone bool
 }
 
 func (f *renameOnCloseFile) Write(p []byte) (int, error) {
@@ -173,14 +175,19 @@ func (f *renameOnCloseFile) Abort() error {
 	// no information here.
 	f.file.Close()
 	var errs []error
-	if !f.discarded {
-		if err := os.Remove(f.tempPath); err != nil && !os.IsNotExist(err) {
+	if !f.tempGone {
+		if err := os.Remove(f.tempPath); err == nil || os.IsNotExist(err) {
+			f.tempGone = true
+		} else {
 			errs = append(errs, err)
 		}
-		if err := os.Remove(f.finalPath); err != nil && !os.IsNotExist(err) {
+	}
+	if !f.finalGone {
+		if err := os.Remove(f.finalPath); err == nil || os.IsNotExist(err) {
+			f.finalGone = true
+		} else {
 			errs = append(errs, err)
 		}
-		f.discarded = len(errs) == 0
 	}
 	// A failed Close may already have renamed (and even fsynced) a complete
 	// file into place; make its removal durable too, or a power loss brings
